@@ -215,6 +215,11 @@ class Contract:
                 env[n] = SV(env[n].k, env[n].t, cls=spec.split(":", 1)[1])
             elif spec == "int" and env[n].k != "int":
                 env[n] = sv_int(eng.as_int(env[n], st, "argument %s of %s" % (n, self.short())))
+            elif spec == "blob" and env[n].k != "blob":
+                from .iomodel import as_blob
+                env[n] = SV("blob", as_blob(eng, env[n], st, "argument %s of %s" % (n, self.short())))
+            elif spec == "stream" and env[n].k == "val":
+                env[n] = SV("ref", eng.as_ref(env[n], st, "argument %s of %s" % (n, self.short())), cls="$Stream")
         if "self" in env and env["self"].k == "val":
             env["self"] = SV("ref", eng.as_ref(env["self"], st, "receiver of %s" % self.short()), cls=env["self"].cls,
                              x=env["self"].x)
@@ -604,6 +609,16 @@ def make_symbolic(eng, st, name, spec):
     if spec == "range":
         a, b, s = fresh(name + "_start", Int), fresh(name + "_stop", Int), fresh(name + "_step", Int)
         return SV("range", x=(sv_int(a), sv_int(b), sv_int(s)))
+    if spec == "blob":
+        from .iomodel import BSeq, byte_range
+        b = fresh(name, BSeq)
+        st.assume(byte_range(b))
+        return SV("blob", b)
+    if spec == "stream":
+        r = fresh(name, Int)
+        return SV("ref", r, cls="$Stream")
+    if spec.startswith("pb:"):
+        return SV("ref", fresh(name, Int), cls=spec)
     if spec == "gen":
         v = fresh("g", Val)
         return SV("gen", x=[Bag([v], z3.Select(fresh(name, SetSort), v), sv_val(v))])
